@@ -7,3 +7,22 @@ souffle::RamDomain lmin(souffle::SymbolTable*, souffle::RecordTable*, souffle::R
 souffle::RamDomain lbor(souffle::SymbolTable*, souffle::RecordTable*, souffle::RamDomain a, souffle::RamDomain b) { return a | b; }
 souffle::RamDomain lband(souffle::SymbolTable*, souffle::RecordTable*, souffle::RamDomain a, souffle::RamDomain b) { return a & b; }
 }
+
+// C09 (exactly-once clause): a side-effecting stateless functor that appends its arguments to the file named by C09_LOG
+#include <cstdint>
+#include <cstdio>
+#include <cstdlib>
+#include <mutex>
+extern "C" int32_t c09note(int32_t r, int32_t a, int32_t b, int32_t c, int32_t d, int32_t e, int32_t f, int32_t g, int32_t h) {
+    static std::mutex m;
+    static FILE* out = nullptr;
+    std::lock_guard<std::mutex> guard(m);
+    if (out == nullptr) {
+        const char* p = std::getenv("C09_LOG");
+        out = std::fopen(p != nullptr ? p : "/dev/null", "a");
+        if (out == nullptr) return 0;
+    }
+    std::fprintf(out, "%d %d %d %d %d %d %d %d %d\n", r, a, b, c, d, e, f, g, h);
+    std::fflush(out);
+    return 0;
+}
